@@ -275,6 +275,19 @@ func (c *caseD) sig(parts ...string) string {
 	return s
 }
 
+// castOf: in the iface-first shape a decode error is named by the cast it reports, so that the recorded finding
+// (a reference to a generic list or map from a typed destination) does not stand for any other error there.
+func castOf(shape string, err error) []string {
+	if shape != "iface-first" {
+		return nil
+	}
+	msg := err.Error()
+	if i := strings.Index(msg, "can not cast "); i >= 0 {
+		return []string{"cast=" + strings.Replace(msg[i+len("can not cast "):], " to ", "->", 1)}
+	}
+	return []string{"other-error"}
+}
+
 // countMismatch: the shapes in which the number of arguments does not fit the method's parameter list. The
 // statement defines the decoded values where the codec delivers them (compared as usual); an error instead
 // is acceptable there, a panic is not.
@@ -350,7 +363,7 @@ func runReq(c *caseD) (out outcome) {
 		out.noValue = true // an error for a call whose argument count does not fit the method is a defined outcome
 		return
 	case decErr != nil:
-		out.v = c.viol(c.sig("args", c.Shape, "decode-error"), "service codec Decode: "+decErr.Error(), data)
+		out.v = c.viol(c.sig(append([]string{"args", c.Shape, "decode-error"}, castOf(c.Shape, decErr)...)...), "service codec Decode: "+decErr.Error(), data)
 		return
 	}
 	if gotName != nm.Call {
@@ -473,7 +486,7 @@ func runResp(c *caseD) (out outcome) {
 		out.noValue = true // an error for a result count that does not fit the declared return types is a defined outcome
 		return
 	case decErr != nil:
-		out.v = c.viol(c.sig("result", c.Shape, "decode-error"), "client codec Decode: "+decErr.Error(), data)
+		out.v = c.viol(c.sig(append([]string{"result", c.Shape, "decode-error"}, castOf(c.Shape, decErr)...)...), "client codec Decode: "+decErr.Error(), data)
 		return
 	}
 	if want, have := hdrH[c.Hdr].canon, headerCanon(cc.ResponseHeaders(), false); want != have {
